@@ -128,6 +128,9 @@ pub struct VarSpec {
     pub bound: Option<(F, F)>,
     pub name: Option<String>,
     pub substituted: Option<F>,
+    /// subscripts, parameters, description (metadata that no operation may touch)
+    #[serde(default)]
+    pub meta: Option<(Vec<i64>, Vec<(String, String)>, Option<String>)>,
 }
 #[derive(Clone, Debug, Serialize, Deserialize, PartialEq)]
 pub struct ConSpec {
@@ -163,6 +166,11 @@ pub struct InstSpec {
     pub deps: Vec<(u64, FuncSpec)>,
     pub sense: i32,
     pub hints: Option<HintSpec>,
+    /// instance description (name, description, authors, created_by) and instance parameters
+    #[serde(default)]
+    pub description: Option<(Option<String>, Option<String>, Vec<String>, Option<String>)>,
+    #[serde(default)]
+    pub parameters: Option<Vec<(u64, F)>>,
 }
 
 impl ConSpec {
@@ -189,6 +197,11 @@ impl VarSpec {
         let mut d = msg::dvar(self.id, self.kind, self.bound.map(|(l, u)| (l.0, u.0)));
         d.name = self.name.clone();
         d.substituted_value = self.substituted.map(|f| f.0);
+        if let Some((subs, params, desc)) = &self.meta {
+            d.subscripts = subs.clone();
+            d.parameters = params.iter().cloned().collect();
+            d.description = desc.clone();
+        }
         d
     }
 }
@@ -203,6 +216,21 @@ impl InstSpec {
             i.decision_variable_dependency.insert(*k, f.to_v1());
         }
         i.sense = self.sense;
+        if let Some((name, desc, authors, by)) = &self.description {
+            let mut d = v1::instance::Description::default();
+            d.name = name.clone();
+            d.description = desc.clone();
+            d.authors = authors.clone();
+            d.created_by = by.clone();
+            i.description = Some(d);
+        }
+        if let Some(ps) = &self.parameters {
+            let mut p = v1::Parameters::default();
+            for (k, v) in ps {
+                p.entries.insert(*k, v.0);
+            }
+            i.parameters = Some(p);
+        }
         if let Some(h) = &self.hints {
             let mut hints = v1::ConstraintHints::default();
             for (c, vs) in &h.one_hot {
@@ -353,7 +381,13 @@ pub fn gen_instance(rng: &mut Rng, o: &GenOpts) -> InstSpec {
                 1 => *rng.pick(&[None, Some((0.0, 1.0)), Some((0.0, 1.0))]),
                 _ => *rng.pick(&[None, Some((-2.0, 2.0)), Some((0.0, 1.0)), Some((f64::NEG_INFINITY, f64::INFINITY)), Some((0.0, f64::INFINITY)), Some((-3.0, 2.5)), Some((f64::NEG_INFINITY, 1.0))]),
             };
-            VarSpec { id: *id, kind, bound: bound.map(|(l, u)| (F(l), F(u))), name: if rng.chance(1, 3) { Some(format!("x{}", id)) } else { None }, substituted: None }
+            let meta = if rng.chance(1, 3) {
+                let (_, subs, params, desc) = gen_meta(rng);
+                Some((subs, params, desc))
+            } else {
+                None
+            };
+            VarSpec { id: *id, kind, bound: bound.map(|(l, u)| (F(l), F(u))), name: if rng.chance(1, 3) { Some(format!("x{}", id)) } else { None }, substituted: None, meta }
         })
         .collect();
     // dependent variables are defined in terms of the others and are not used elsewhere
@@ -404,7 +438,9 @@ pub fn gen_instance(rng: &mut Rng, o: &GenOpts) -> InstSpec {
     } else {
         None
     };
-    InstSpec { vars, objective, constraints, removed, deps, sense: 1 + rng.below(2) as i32, hints }
+    let description = if rng.chance(1, 3) { Some((Some("problem".to_string()), if rng.chance(1, 2) { Some("text, with a comma".to_string()) } else { None }, vec!["A".to_string(); rng.usize(3)], Some("sim".to_string()))) } else { None };
+    let parameters = if rng.chance(1, 4) { Some(vec![(7, F(1.5)), (u64::MAX, F(-2.0))]) } else { None };
+    InstSpec { vars, objective, constraints, removed, deps, sense: 1 + rng.below(2) as i32, hints, description, parameters }
 }
 
 /// an in-bound value for a variable, a multiple of 1/2 in [-2, 2] (integers for integer kinds, 0/1 for binaries)
@@ -676,4 +712,40 @@ pub fn functions_of(inst: &v1::Instance) -> Vec<(String, Option<v1::Function>)> 
         v.push((format!("dependency of {}", k), Some(f.clone())));
     }
     v
+}
+
+
+/// What an operation on functions / constraint lists must leave alone: description, parameters, hints, sense
+/// and every decision variable except for its recorded value. Returns the names of the parts that changed.
+pub fn untouched_diff(before: &v1::Instance, after: &v1::Instance, variables_too: bool, whole_instance: bool) -> Vec<&'static str> {
+    let mut out = vec![];
+    if whole_instance {
+        if before.description != after.description {
+            out.push("description");
+        }
+        if before.parameters != after.parameters {
+            out.push("parameters");
+        }
+        if before.constraint_hints != after.constraint_hints {
+            out.push("constraint_hints");
+        }
+        if before.sense != after.sense {
+            out.push("sense");
+        }
+    }
+    if variables_too {
+        if before.decision_variables.len() != after.decision_variables.len() {
+            out.push("decision_variables");
+        } else {
+            for (b, a) in before.decision_variables.iter().zip(&after.decision_variables) {
+                let mut b2 = b.clone();
+                b2.substituted_value = a.substituted_value;
+                if &b2 != a {
+                    out.push("decision_variables");
+                    break;
+                }
+            }
+        }
+    }
+    out
 }
